@@ -21,7 +21,7 @@ func cs(h string, params ...int) sym.CaseSpec {
 	return sym.CaseSpec{Pkg: hPkg, Harness: h, Params: params}
 }
 
-const realModeNote = "floats are exact reals (real mode): decides the algebraic content of the property; rounding, overflow to ±Inf and NaN are outside the claim; inputs on which an executed float division has a zero denominator are outside the claim (den ≠ 0 is conjoined to the path condition)"
+const realModeNote = "floats are exact reals (real mode): decides the algebraic content of the property; rounding, overflow to ±Inf and NaN are outside the claim; inputs on which an executed float division has a zero denominator are outside the claim (den ≠ 0 is conjoined to the path condition), except in cases named ...@zeroden<N>: there up to N divisions per path may have a zero denominator (decided by forking) and yield the concrete IEEE 754 special value (+Inf / -Inf / NaN by the sign of the numerator), which later operations treat as IEEE 754 prescribes; value equalities with a special operand stay exempt, counts / control flow / termination are decided"
 
 var commonAssumptions = []string{
 	"go/ssa (x/tools v0.29.0) is a faithful IR of /repo's source",
